@@ -240,7 +240,10 @@ def run_real(c, ctx):
             if c['via'] == 'runner_combos':
                 res = xyz.Runner(f, var_names=['x']).run_combos(combos, cases=cases_, constants=sw['consts'] or None, verbosity=0)
             elif c['via'] == 'runner_cases':
-                res = xyz.Runner(f, var_names=['x'], fn_args=sw['case_args']).run_cases(ct, combos=combos, constants=sw['consts'] or None, verbosity=0)
+                # Runner.run_cases hands `combos` on unparsed (parse=False; DESIGN §9): give it the parsed form, as everywhere else
+                #   (a dict was only "understood" while every argument name was a single letter)
+                pc = tuple((a, list(v)) for a, v in (combos.items() if isinstance(combos, dict) else combos))
+                res = xyz.Runner(f, var_names=['x'], fn_args=sw['case_args']).run_cases(ct, combos=pc, constants=sw['consts'] or None, verbosity=0)
             elif c['via'] == 'to_ds':
                 res = xyz.combo_runner_to_ds(f, combos, var_names=['x'], cases=cases_, constants=sw['consts'] or None, verbosity=0)
             elif c['via'] == 'to_df':
